@@ -462,4 +462,140 @@ theorem schemaFile_export_hit {c : Cfg} {doc : TsDoc} {F : File} (hF : schemaFil
     exports_find_namespaces c doc P t td ty hb hm hne hdist _ _ hns (Target.mem_all t)]
   rfl
 
+/-! ### the top-level representatives -/
+
+theorem find_representatives (sc : Scope) (x : Ctx) (td : TypeDef) : ∀ (tds : List TypeDef), td ∈ tds →
+    (∀ a ∈ tds, x.local a.name = x.local td.name → a = td) →
+    (tds.map fun a => (⟨sc, x.local a.name, a.name == x.local a.name, [], .qref [(repTarget a).name, a.name]⟩ : Decl)).find?
+        (isDecl sc (x.local td.name))
+      = some ⟨sc, x.local td.name, td.name == x.local td.name, [], .qref [(repTarget td).name, td.name]⟩ := by
+  intro tds
+  induction tds with
+  | nil => intro h; cases h
+  | cons a r ih =>
+    intro hm hinj
+    simp only [List.map_cons, List.find?_cons]
+    by_cases hat : a = td
+    · subst hat; simp [isDecl]
+    · have hne : x.local a.name ≠ x.local td.name := fun e => hat (hinj a List.mem_cons_self e)
+      have : isDecl sc (x.local td.name)
+          ⟨sc, x.local a.name, a.name == x.local a.name, [], .qref [(repTarget a).name, a.name]⟩ = false := by
+        simp [isDecl, hne]
+      rw [this]
+      apply ih
+      · rcases List.mem_cons.1 hm with e | e
+        · exact absurd e.symm hat
+        · exact e
+      · exact fun b hb => hinj b (List.mem_cons_of_mem _ hb)
+
+theorem scope_namespaces (c : Cfg) (doc : TsDoc) (P : Scope) (ts : List Target) (ss : List Stmt)
+    (h : namespaces c doc ts = .ok ss) : ∀ d ∈ Stmt.declsList P ss, d.scope ≠ P := by
+  intro d hd
+  obtain ⟨t, _, td, _, ty, _, rfl⟩ := decls_namespaces c doc P ts ss h d hd
+  exact fun e => scope_ne_child P _ e.symm
+
+/-- TOP LEVEL HIT: at the top of the file the local name of a definition finds its representative
+    `type T = <namespace of its representative target>.T` -/
+theorem schemaFile_find_top {c : Cfg} {doc : TsDoc} {F : File} (hF : schemaFile c doc = .ok F) (P : Scope)
+    (td : TypeDef) (hm : td ∈ typeDefsOf doc)
+    (hpre : localName (bag (scalarTypes c doc)) td.name ∉ preludeNames)
+    (hinj : ∀ a ∈ typeDefsOf doc,
+      localName (bag (scalarTypes c doc)) a.name = localName (bag (scalarTypes c doc)) td.name → a = td) :
+    (Stmt.declsList P F).find? (isDeclAt P (localName (bag (scalarTypes c doc)) td.name))
+      = some ⟨P, localName (bag (scalarTypes c doc)) td.name, td.name == localName (bag (scalarTypes c doc)) td.name, [],
+          .qref [(repTarget td).name, td.name]⟩ := by
+  obtain ⟨ns, hns, rfl⟩ := schemaFile_eq hF
+  rw [isDeclAt_eq]
+  simp only [declsList_append', List.find?_append]
+  have hpre' : (Stmt.declsList P (prelude doc)).find? (isDecl P (localName (bag (scalarTypes c doc)) td.name)) = none := by
+    apply List.find?_eq_none.2
+    intro d hd
+    have := (decls_prelude P doc d hd).2
+    simp only [isDecl, Bool.and_eq_true, beq_iff_eq, not_and]
+    intro _ e; exact hpre (e ▸ this)
+  have hns' : (Stmt.declsList P ns).find? (isDecl P (localName (bag (scalarTypes c doc)) td.name)) = none := by
+    apply List.find?_eq_none.2
+    intro d hd
+    simp only [isDecl, Bool.and_eq_true, beq_iff_eq, not_and]
+    intro e; exact absurd e (scope_namespaces c doc P _ _ hns d hd)
+  rw [hpre', hns', Option.none_or, Option.none_or, decls_representatives]
+  exact find_representatives P (Ctx.new c doc .operationOutput) td _ hm hinj
+
+theorem exports_representative (sc : Scope) (x : Ctx) (td : TypeDef) :
+    Stmt.exportsList sc (representative x td)
+      = if td.name == x.local td.name then [] else [(sc, x.local td.name, td.name)] := by
+  unfold representative exportRepresentative
+  rw [exportsList_append]
+  have : Stmt.exportsList sc (if (td.kind == TypeKind.enum && x.cfg.emitSchemaRuntime) = true then
+      [Stmt.const true false td.name (some (Ty.ref "const"))
+        (some (JsExpr.obj (List.map (fun v => (v.name, JsExpr.str v.name)) td.values)))] else []) = [] := by
+    split <;> simp [Stmt.exportsList, Stmt.exports]
+  rw [this]
+  split <;> simp [Stmt.exportsList, Stmt.exports]
+
+theorem exports_find_representatives (sc : Scope) (x : Ctx) (td : TypeDef)
+    (hne : (td.name == x.local td.name) = false) : ∀ (tds : List TypeDef), td ∈ tds →
+    (∀ a ∈ tds, a.name = td.name → a = td) →
+    (Stmt.exportsList sc (tds.flatMap (representative x))).find? (isExportAt sc td.name)
+      = some (sc, x.local td.name, td.name) := by
+  intro tds
+  induction tds with
+  | nil => intro h; cases h
+  | cons a r ih =>
+    intro hm hdist
+    simp only [List.flatMap_cons, exportsList_append, List.find?_append, exports_representative]
+    by_cases hat : a = td
+    · subst hat; simp [hne, isExportAt]
+    · have hne' : a.name ≠ td.name := fun e => hat (hdist a List.mem_cons_self e)
+      have : (if a.name == x.local a.name then [] else [(sc, x.local a.name, a.name)]).find? (isExportAt sc td.name)
+          = none := by
+        split
+        · rfl
+        · simp [isExportAt, hne']
+      rw [this, Option.none_or]
+      apply ih
+      · rcases List.mem_cons.1 hm with e | e
+        · exact absurd e.symm hat
+        · exact e
+      · exact fun b hb => hdist b (List.mem_cons_of_mem _ hb)
+
+theorem exports_scope_namespaces (c : Cfg) (doc : TsDoc) (P : Scope) : ∀ (ts : List Target) (ss : List Stmt),
+    namespaces c doc ts = .ok ss → ∀ y ∈ Stmt.exportsList P ss, y.1 ≠ P := by
+  intro ts
+  induction ts with
+  | nil => intro ss h y hy; simp [namespaces] at h; subst h; simp [Stmt.exportsList] at hy
+  | cons t0 rest ih =>
+    intro ss h y hy
+    simp only [namespaces] at h
+    split at h
+    · cases h
+    · rename_i body0 hb0
+      split at h
+      · cases h
+      · rename_i r hr
+        cases h
+        simp only [Stmt.exportsList, Stmt.exports, List.mem_append] at hy
+        rcases hy with hy | hy
+        · rw [exports_scope_namespaceBody _ (P ++ [t0.name]) _ _ hb0 y hy]
+          exact fun e => scope_ne_child P _ e.symm
+        · exact ih r hr y hy
+
+/-- a RENAMED definition is exported from the top level under its schema name through `export type { … }` -/
+theorem schemaFile_export_top {c : Cfg} {doc : TsDoc} {F : File} (hF : schemaFile c doc = .ok F) (P : Scope)
+    (td : TypeDef) (hm : td ∈ typeDefsOf doc)
+    (hne : (td.name == localName (bag (scalarTypes c doc)) td.name) = false)
+    (hdist : ∀ a ∈ typeDefsOf doc, a.name = td.name → a = td) :
+    (Stmt.exportsList P F).find? (isExportAt P td.name)
+      = some (P, localName (bag (scalarTypes c doc)) td.name, td.name) := by
+  obtain ⟨ns, hns, rfl⟩ := schemaFile_eq hF
+  simp only [exportsList_append, List.find?_append]
+  have hpre : Stmt.exportsList P (prelude doc) = [] := by simp [prelude, Stmt.exportsList, Stmt.exports]
+  have hns' : (Stmt.exportsList P ns).find? (isExportAt P td.name) = none := by
+    apply List.find?_eq_none.2
+    intro y hy
+    simp only [isExportAt, Bool.and_eq_true, beq_iff_eq, not_and]
+    intro e; exact absurd e (exports_scope_namespaces c doc P _ _ hns y hy)
+  rw [hpre, List.find?_nil, Option.none_or, hns', Option.none_or]
+  exact exports_find_representatives P (Ctx.new c doc .operationOutput) td hne _ hm hdist
+
 end NitroVerif.SchemaDecls
